@@ -158,7 +158,10 @@ def parse_state(text: str) -> dict:
         p.ws()
         if p.i >= p.n:
             return out
-        p.expect("/\\")
+        if p.s.startswith("/\\", p.i):
+            p.i += 2
+        elif out:
+            p.expect("/\\")
         p.ws()
         j = p.i
         while p.s[j].isalnum() or p.s[j] == "_":
